@@ -91,6 +91,13 @@ CLAIMED.update({
    note="Devices of a group whose transition failed are left half configured by the MainDevice; nothing is asserted about their memory (the statement speaks about groups brought to SAFE-OP / OP). Strict devices have exactly the FMMUs their SII declares; a group that fails because such a device runs out of FMMUs is accepted as an error outcome."),
 })
 
+CLAIMED.update({
+ "C07": dict(engine="simnet", category="exploration", design_ref="§5 C07",
+   technique="property-based testing of one process data cycle against the simulated segment: generated image sizes / splits, device counts, all three cycle variants and every frame size (single-slot storages), judged from the frames on the simulated wire, the answers the simulator gave, the local image windows and the devices' memory; plus a reference packer for the frame count",
+   text="Group built by real init + into_op (0..8 devices, image 0..2048 bytes); the cycle is run by a MainDevice whose frame size is generated (30..1514; half of the cases put the end of the image on the frame boundary +-1). Checked per cycle: LRW datagrams tile the image contiguously from its start, each frame within the frame size, no other datagrams than state checks and (DC variants) exactly one FRMW to the reference clock's 0x0910 as first datagram of the first frame; reported time == the simulator's answer; reported working counter == sum over the LRW answers; one state per device in group order equal to the AL status served; inputs part of the image == the bytes the network returned == the devices' input memory; outputs unchanged locally and delivered into the devices; frames used <= frames a straightforward packer needs. A cycle that never returns is reported by a watchdog (wall clock 120 s, cases take milliseconds).",
+   note="The sync-system-time variant needs the reference clock address that lives in the MainDevice that ran init, so there init runs with the generated frame size too (>= 64)."),
+})
+
 NOT_YET = {}
 
 ALL = [f"C{i:02d}" for i in range(1,21)]
@@ -126,7 +133,7 @@ def main():
         {"name":"pdusim","path":"harness/vlib","serves_properties":[p for p in CLAIMED if CLAIMED[p]["engine"]=="pdusim"],"kind_free_text":"PDU-loop harness: real frame builder / TX / RX driven op by op under a virtual clock, reference frame encoder, slot snapshots through verif-hooks"},
         {"name":"sii","path":"harness/vlib/src/sii.rs","serves_properties":["C12","C13","C14"],"kind_free_text":"independent SII EEPROM encoder + in-memory EepromDataProvider (4/8 byte chunks, read budget), driven through the verif-hooks SiiQueries facade"},
         {"name":"wiregen","path":"harness/vlib/src/wiregen.rs","serves_properties":["C19"],"kind_free_text":"derive-program generator, Rust source emitter, request/response executor, bit-level reference packer"},
-        {"name":"simnet","path":"harness/vlib/src/simnet.rs","serves_properties":["C08","C09","C10","C11"],"kind_free_text":"simulated EtherCAT segment: frame walk over ESC register/SII/SM/FMMU/AL/mailbox(CoE)/DC models, deterministic executor under the virtual clock, coherent device generator"},
+        {"name":"simnet","path":"harness/vlib/src/simnet.rs","serves_properties":["C07","C08","C09","C10","C11"],"kind_free_text":"simulated EtherCAT segment: frame walk over ESC register/SII/SM/FMMU/AL/mailbox(CoE)/DC models, deterministic executor under the virtual clock, coherent device generator"},
         {"name":"a2","path":"harness/vlib/src/a2.rs","serves_properties":["C01","C02","C06"],"kind_free_text":"yield-level scheduler: parties as ucontext coroutines on one thread, baton handed over at every verif-hooks point, schedules generated (random/PCT) or enumerated (pre-emption bounded), ownership monitor"},
       ],
       "checks":checks,
